@@ -79,8 +79,13 @@ class CNFizer(DagWalker):
                 elif not lit.is_false():
                     # Prune FALSE literals
                     simp.append(lit)
-            if simp:
-                res.append(frozenset(simp))
+            if simp is None:
+                # The clause was pruned
+                continue
+            if len(simp) == 0:
+                # All literals are false: this is the empty clause
+                return CNFizer.FALSE_CNF
+            res.append(frozenset(simp))
         return frozenset(res)
 
     def convert_as_formula(self, formula):
